@@ -248,6 +248,18 @@ impl IceConn {
         );
     }
 
+    /// Verification hook: public entry to the selected-pair update.
+    #[cfg(feature = "verif")]
+    pub fn verif_set_remote_addr_from_selected_pair(&self, addr: SocketAddr) {
+        self.set_remote_addr_from_selected_pair(addr, "verif");
+    }
+
+    /// Verification hook: public entry to the signaling retarget.
+    #[cfg(feature = "verif")]
+    pub fn verif_set_remote_addr_from_signaling(&self, addr: SocketAddr) {
+        self.set_remote_addr_from_signaling(addr, "verif");
+    }
+
     /// Reset latching state before applying a remote SDP so a new source can
     /// be selected. Clears both the latch flag and any in-progress probation.
     pub fn reset_latch(&self) {
